@@ -1009,6 +1009,10 @@ impl OeDriver {
         true
     }
     pub fn finish(mut self) -> (Vec<OeOp>, CaseResult) {
+        // every token the payments bought exists in the collection with the configured metadata
+        for what in self.w.metadata_violations() {
+            self.violation("C02:oe-token-metadata", what);
+        }
         let coq = self.w.case_coq(&self.init, &self.init_bal, &self.steps);
         self.res.coq = Some(coq);
         (self.ops, self.res)
@@ -1206,6 +1210,8 @@ fn gen_oe(rng: &mut Rng, variant: usize, thorough: bool, lits: &[u128]) -> (Case
     cfg.fp.airdrop_fee_bps = *rng.pick(&bps_pool());
     cfg.price = price;
     cfg.payment_address = rng.chance(1, 2);
+    // NFT metadata mode: on-chain metadata (sg721-metadata-onchain collection) in two of five editions
+    cfg.onchain = rng.chance(2, 5);
     let wl = rng.chance(2, 5);
     if wl {
         cfg.wl = oe_wl_kind(variant);
@@ -1318,6 +1324,7 @@ fn corpus2() -> Vec<Case2> {
         cfg.fp.airdrop_price = 100;
         cfg.fp.airdrop_fee_bps = 5000;
         cfg.payment_address = true;
+        cfg.onchain = true;
         v.push(Case2::Oe {
             cfg,
             ops: vec![
